@@ -36,7 +36,8 @@ func exportHits(c *hx.Ctx) {
 
 const wb = hx.WordBase
 
-var edgeW = []uint64{0, 0, 1, 2, 10, 1000000000, wb / 10, wb/2 - 1, wb / 2, wb/2 + 1, wb - 2, wb - 1, wb - 1, wb - 1}
+var edgeW = []uint64{0, 0, 1, 2, 10, 1000000000, wb / 10, wb/2 - 1, wb / 2, wb/2 + 1, wb - 2, wb - 1, wb - 1, wb - 1,
+	wb / 3, wb/3 + 1, wb / 6, wb/6 + 1, wb / 7, wb / 9, wb / 4, wb / 5} // B/k: where B/(v+1) and (B-1)/v differ
 
 func genWord(r *hx.RNG) decimal.Word {
 	if r.Chance(45) {
